@@ -145,3 +145,23 @@ Qed.
 
 Lemma clip_example : joint_norm (flat_clipped 1 [[3; 0]; [4]]) <= 1.
 Proof. apply clip_scaled_norm_le; lra. Qed.
+
+(* ---- per-layer bounds follow the max_grad_norm in force (DPPerLayerOptimizer.clip_and_accumulate after the repair):
+   whatever value max_grad_norm has been given since construction (a clipping scheduler), the bounds actually used are non-negative
+   multiples of the configured ones and their joint norm IS max_grad_norm -- the quantity the noise standard deviation is scaled by *)
+Lemma pl_bounds_as_vscale (mgn : R) (Cs : list R) : pl_bounds_in_force mgn Cs = vscale (pl_scale mgn Cs) Cs.
+Proof. unfold pl_bounds_in_force, vscale. apply map_ext. intros c. cbn. ring. Qed.
+Theorem pl_bounds_in_force_norm (mgn : R) (Cs : list R) : 0 <= mgn -> 0 < nnorm2 Cs ->
+  nnorm2 (pl_bounds_in_force mgn Cs) = mgn /\ (Forall (fun c => 0 <= c) Cs -> Forall (fun c => 0 <= c) (pl_bounds_in_force mgn Cs)).
+Proof.
+  intros Hm Hn. assert (Hs : 0 <= pl_scale mgn Cs).
+  { unfold pl_scale. cbn. apply Rmult_le_pos; [exact Hm|]. left. now apply Rinv_0_lt_compat. }
+  split.
+  - rewrite pl_bounds_as_vscale, norm2_scale by exact Hs. unfold pl_scale. remember (nnorm2 Cs) as n eqn:En. cbn. field. lra.
+  - intros H. unfold pl_bounds_in_force. apply Forall_map. eapply Forall_impl; [|exact H]. cbn. intros c Hc. now apply Rmult_le_pos.
+Qed.
+(* without a change of max_grad_norm (it starts as the norm of the bounds) the bounds in force are the configured ones *)
+Theorem pl_bounds_unchanged (Cs : list R) : 0 < nnorm2 Cs -> pl_bounds_in_force (nnorm2 Cs) Cs = Cs.
+Proof.
+  intros Hn. unfold pl_bounds_in_force, pl_scale. remember (nnorm2 Cs) as n eqn:En. rewrite <- (map_id Cs) at 2. apply map_ext. intros c. cbn. field. lra.
+Qed.
